@@ -205,7 +205,7 @@ func runCheck(prop, tier string, overlay map[string][]byte, seed int) (*checkOut
 	oc.reports = reports
 	if os.Getenv("ACV_VERBOSE") != "" {
 		for _, r := range reports {
-			fmt.Printf("  func %-90s enc %.1fs total %.1fs obls %d cands %d/%d\n", r.Key, r.EncodeTime, r.TotalTime, len(r.Results), r.CandsKept, r.Cands)
+			fmt.Printf("  func %-90s enc %.1fs houdini %.1fs total %.1fs obls %d cands %d/%d\n", r.Key, r.EncodeTime, r.HoudiniTime, r.TotalTime, len(r.Results), r.CandsKept, r.Cands)
 		}
 	}
 	// lemmas and structural obligations
